@@ -1503,7 +1503,7 @@ class Lib:
             # assumed: sqrt(x) >= 0 and sqrt(x)^2 == x for x >= 0
             interp.ctx.assume(Implies(compare(">=", x, 0), And(compare(">=", s, 0), compare("==", arith("*", s, s), wrap(treal(x))))))
             return s
-        if name == "exp" and x == 0:
+        if name == "exp" and isinstance(x, (int, Fraction)) and x == 0:
             return Fraction(1)
         return wrap(uf(name)(treal(x)))
 
